@@ -148,16 +148,23 @@ def big_matrices(draw):
     lo, hi = {'small': (1, 6), 'medium': (5, 15), 'large': (12, 30)}[size]
     n_major = draw(st.integers(lo, hi))
     n_minor = draw(st.integers(lo, hi))
-    if draw(st.integers(0, 7)) == 0:
+    shape_mode = draw(st.integers(0, 9))
+    if shape_mode == 0:
         # tall / wide extremes (one slice, or a minor axis of one)
         if draw(st.booleans()):
             n_major = 1
         else:
             n_minor = 1
+    elif shape_mode in (1, 2):
+        # very elongated matrices: one output (or input) slice alone holds more than 100 stored entries,
+        # i.e. more than the enforced minimum block / load-chunk size
+        long_side = draw(st.integers(110, 260))
+        short_side = draw(st.integers(1, 6))
+        n_major, n_minor = (long_side, short_side) if draw(st.booleans()) else (short_side, long_side)
     m = {'shape': [n_major, n_minor], 'seed': draw(st.integers(0, 2**31 - 1)), 'family': fam,
          'vdtype': draw(st.sampled_from(VALUE_DTYPES))}
     if fam == 'random':
-        m['density'] = draw(st.sampled_from([0.03, 0.15, 0.4, 0.6, 0.8, 0.95]))
+        m['density'] = draw(st.sampled_from([0.03, 0.15, 0.4, 0.6, 0.8, 0.95] if shape_mode not in (1, 2) else [0.6, 0.9, 0.97]))
         m['empty_major'] = draw(st.lists(st.integers(0, n_major - 1), max_size=3, unique=True))
         m['empty_minor'] = draw(st.lists(st.integers(0, n_minor - 1), max_size=3, unique=True))
     if draw(st.integers(0, 5)) == 0:
